@@ -42,11 +42,20 @@ func zzUpdates() []zzUpd {
 	return []zzUpd{
 		{"full", func(gp *GenginePool) error { return gp.UpdatePooledRules(zzVText(2, false, "abc")) }, map[string]int64{"a": 2, "b": 2, "c": 2}},
 		{"fullset", func(gp *GenginePool) error { return gp.UpdatePooledRules(zzVText(2, false, "abd")) }, map[string]int64{"a": 2, "b": 2, "d": 2}},
-		{"incr", func(gp *GenginePool) error { return gp.UpdatePooledRulesIncremental(zzVText(2, false, "b")) }, map[string]int64{"a": 1, "b": 2, "c": 1}},
-		{"incradd", func(gp *GenginePool) error { return gp.UpdatePooledRulesIncremental(zzVText(2, false, "cd")) }, map[string]int64{"a": 1, "b": 1, "c": 2, "d": 2}},
+		{"incr", func(gp *GenginePool) error { return zzExplored(func() error { return gp.UpdatePooledRulesIncremental(zzVText(2, false, "b")) }) }, map[string]int64{"a": 1, "b": 2, "c": 1}},
+		{"incradd", func(gp *GenginePool) error { return zzExplored(func() error { return gp.UpdatePooledRulesIncremental(zzVText(2, false, "cd")) }) }, map[string]int64{"a": 1, "b": 1, "c": 2, "d": 2}},
 		{"remove", func(gp *GenginePool) error { return gp.RemoveRules([]string{"c"}) }, map[string]int64{"a": 1, "b": 1}},
 		{"clear", func(gp *GenginePool) error { gp.ClearPoolRules(); return nil }, map[string]int64{}},
 	}
+}
+
+// zzExplored runs an update with the iteration order of the rule maps explored
+// (the merge order of an incremental update depends on it).
+func zzExplored(f func() error) error {
+	vnd.ExploreMapOrder(true)
+	err := f()
+	vnd.ExploreMapOrder(false)
+	return err
 }
 
 // zzRan collects name -> list of versions announced since mark.
@@ -66,17 +75,47 @@ func zzRan(from int) map[string][]int64 {
 // zzOneVersion: what ran is consistent with exactly one of the two versions:
 // every rule that ran announced the version it has in that set, no rule ran
 // twice, and no rule outside that set ran.
-func zzOneVersion(ran map[string][]int64, v1, v2 map[string]int64) {
+func zzOneVersion(ran map[string][]int64, v1, v2 map[string]int64, scope string) {
+	// the rules of version v that this model schedules: all of them, the three
+	// highest-priority ones (N+M = 3), or the named ones
+	expected := func(v map[string]int64) map[string]int64 {
+		out := map[string]int64{}
+		switch scope {
+		case "top3":
+			n := 0
+			for _, name := range []string{"a", "b", "c", "d"} {
+				if ver, ok := v[name]; ok && n < 3 {
+					out[name] = ver
+					n++
+				}
+			}
+		case "abc":
+			for _, name := range []string{"a", "b", "c"} {
+				if ver, ok := v[name]; ok {
+					out[name] = ver
+				}
+			}
+		default:
+			for name, ver := range v {
+				out[name] = ver
+			}
+		}
+		return out
+	}
 	fits := func(v map[string]int64) bool {
+		want := expected(v)
+		if len(want) != len(ran) {
+			return false
+		}
 		for name, vs := range ran {
-			want, ok := v[name]
-			if !ok || len(vs) != 1 || vs[0] != want {
+			w, ok := want[name]
+			if !ok || len(vs) != 1 || vs[0] != w {
 				return false
 			}
 		}
 		return true
 	}
-	vnd.Assert(fits(v1) || fits(v2), "an execution runs rules of exactly one installed version")
+	vnd.Assert(fits(v1) || fits(v2), "an execution runs all rules of exactly one installed version and none of another")
 }
 
 func zzExactly(ran map[string][]int64, v map[string]int64, what string) {
@@ -89,6 +128,16 @@ func zzExactly(ran map[string][]int64, v map[string]int64, what string) {
 `
 
 // execution models the pool offers, as calls on gp with data
+func c07Scope(model string) string {
+	switch model {
+	case "ExecuteNSortMConcurrent", "ExecuteNConcurrentMSort", "ExecuteNConcurrentMConcurrent":
+		return "top3"
+	case "ExecuteSelectedRules", "ExecuteSelectedRulesConcurrent", "ExecuteSelectedNSortMConcurrent", "ExecuteSelectedWithSpecifiedEM":
+		return "abc"
+	}
+	return "all"
+}
+
 func c07Models() []poolCall {
 	names := "[]string{\"a\", \"b\", \"c\"}"
 	return []poolCall{
@@ -165,7 +214,7 @@ func %s() {
 	vnd.Quiesce()
 	vnd.Reach("executed")
 	vnd.Assert(fired >= 1, "the update was triggered from inside the running rule")
-	zzOneVersion(zzRan(mark), v1, upd.after)
+	zzOneVersion(zzRan(mark), v1, upd.after, %q)
 	// visibility on every instance
 	for which := 0; which < 2; which++ {
 		mark = len(vnd.Trace())
@@ -173,7 +222,7 @@ func %s() {
 		zzExactly(zzRan(mark), upd.after, "after the update returned every later execution, on any instance, runs the new version")
 	}
 }
-`, m.name, inst, u, name, ui, inst, m.call)
+`, m.name, inst, u, name, ui, inst, m.call, c07Scope(m.name))
 				fam.Instances = append(fam.Instances, Instance{Func: name, Stratum: m.name + "/" + u, Desc: fmt.Sprintf("%s on instance %d, update %s inside rule a", m.name, inst, u), Expect: []string{"executed"}})
 			}
 		}
@@ -216,14 +265,14 @@ func %s() {
 	wg.Wait()
 	vnd.Quiesce()
 	vnd.Reach("executed")
-	zzOneVersion(zzRan(mark), v1, upd.after)
+	zzOneVersion(zzRan(mark), v1, upd.after, %q)
 	for which := 0; which < 2; which++ {
 		mark = len(vnd.Trace())
 		zzRunOn(gp, which)
 		zzExactly(zzRan(mark), upd.after, "after the update returned every later execution, on any instance, runs the new version")
 	}
 }
-`, m.name, u, name, idx, m.call)
+`, m.name, u, name, idx, m.call, c07Scope(m.name))
 			fam.Instances = append(fam.Instances, Instance{Func: name, Stratum: "cross-thread/" + m.name, Desc: fmt.Sprintf("%s with update %s from another goroutine", m.name, u), Expect: []string{"executed"}})
 		}
 	}
@@ -300,6 +349,38 @@ func %s() {
 `, m.fn, name, m.n, call)
 		fam.Instances = append(fam.Instances, Instance{Func: name, Stratum: "engine/" + m.fn, Desc: "races inside " + m.fn, Expect: []string{"executed"}})
 	}
+	// conc blocks: every member kind, receivers in the data context and in a rule local
+	b.WriteString(`
+type zzObj struct{ N int64 }
+
+func (o *zzObj) Touch(p bool) int64 {
+	if p {
+		panic("boom")
+	}
+	return o.N
+}
+
+func C_conc_blocks() {
+	p := symFlags("p", 4)
+	dc := newDC(nil)
+	addFlags(dc, "p", p)
+	dc.Add("mk", func() *zzObj { return &zzObj{N: 3} })
+	dc.Add("obj", &zzObj{N: 5})
+	dc.Add("fn", func(q bool) int64 {
+		if q {
+			panic("boom")
+		}
+		return 1
+	})
+	rb := buildTextPlain(dc, "rule \"r\" begin\n o = mk()\n conc {\n  a = fn(p0)\n  o.Touch(p1)\n  b = obj.Touch(p2)\n  fn(p3)\n  c = 7\n }\n return a + b + c\nend\n")
+	eng := NewGengine()
+	err := eng.Execute(rb, true)
+	_ = err
+	vnd.Reach("executed")
+	vnd.NoRaces("")
+}
+`)
+	fam.Instances = append(fam.Instances, Instance{Func: "C_conc_blocks", Stratum: "conc", Desc: "conc block with every member kind, local and injected receivers", Expect: []string{"executed"}})
 	// pool: two requests
 	b.WriteString(`
 func zzClient(gp *GenginePool, wg *sync.WaitGroup, f func()) {
@@ -350,7 +431,13 @@ func P_three_requests() {
 			fmt.Fprintf(&b, `
 // a request (%s) concurrent with management operation %s
 func %s() {
-	gp, e := NewGenginePool(1, 2, SortModel, zzVText(1, false, "abc"), zzApis())
+	apis := zzApis()
+	// natively the first rule naps (no synchronisation) while the management operation runs
+	apis["upd"] = func() {
+		vnd.Event("in-a")
+		vnd.Nap()
+	}
+	gp, e := NewGenginePool(1, 2, SortModel, zzVText(1, true, "abc"), apis)
 	zzMust(e, "pool construction")
 	upd := zzUpdates()[%d]
 	var wg sync.WaitGroup
@@ -358,7 +445,10 @@ func %s() {
 		data := map[string]interface{}{"req": int64(1)}
 		%s
 	})
-	zzClient(gp, &wg, func() { upd.fn(gp) })
+	zzClient(gp, &wg, func() {
+		vnd.WaitFor("in-a")
+		upd.fn(gp)
+	})
 	wg.Wait()
 	vnd.Quiesce()
 	vnd.Reach("executed")
